@@ -132,6 +132,7 @@ class SimSocket(object):
         self.fixed_port = None
         self.last_activity = None  # net.now of the last byte accepted by send or returned by recv
         self.close_time = None
+        self.created = net.now
         self.tx_chunks = []       # sizes accepted by each successful send (oracle side)
         self.rx_chunks = []       # data returned by each successful recv (oracle side)
         net.socks.append(self)
@@ -272,6 +273,7 @@ class SimSocket(object):
         self.peer, srv.peer = srv, self
         srv.state = "established"
         srv.blocking = True
+        srv.last_activity = net.now   # connection establishment starts the idle period
         self.state = "pending"
         self.blackholed = False
         self.pending_listener = lst
